@@ -3,7 +3,7 @@ from tools.extract import Unit, Rw
 from tools.krun import Harness
 
 PROPERTY = "C14"
-PRELUDE = ["../common/base.rs", "prelude.rs", "streamer_specs.rs", "restore_stubs.rs"]
+PRELUDE = ["../common/base.rs", "prelude.rs", "streamer_specs.rs", "restore_stubs.rs", "merge_stubs.rs"]
 T = "crates/core/src/blob/tree.rs"
 R_ERR = Rw("", "verr()", count=None, kind="err", optional=True, why="RusticError construction (kind/message/context dropped)")
 R_DISCARD = Rw(r"(?m)^(\s*)_ = ", r"\1let _ = ", regex=True, count=None, optional=True, why="`_ = e;` -> `let _ = e;`")
@@ -135,7 +135,55 @@ UNITS += [
 
 KANI = []
 META = {"not_covered": [
-    "the content half of C14 (existing files, delete, verify, sparse): file-system state",
+    "restore_contents (threads), set_metadata, the closure process_node of collect_and_prepare, sparse files, LocalDestination (syscalls): file-system state",
+    "walkdir order (ascending by path, component-wise) and NodeStreamer order are ASSUMED sorted in the merge unit",
+    "LocalDestination::path joining the streamed relative path onto the destination (std Path::join of a confined relative path)",
+    "is_plain_name itself (assumed to decide 'one normal component' per std::path::Path::components)",
+]}
+UNITS += [
+    Unit(name="merge_walk", file=RS, kind="block", within="pub(crate) fn collect_and_prepare<S: IndexedFull>(",
+         anchor="    loop {\n        match (&next_dst, &next_node) {", block_end="@matching_brace",
+         block_sig="fn merge_walk(mut next_dst: Option<DirEntryM>, mut next_node: Option<(PathBufR, Node)>, walker: &mut WalkerM, node_streamer: &mut NodeStreamM, dest: &LocalDestinationM) -> (r: RusticResult<()>)",
+         block_tail="    Ok(())",
+         functions=["commands::restore::collect_and_prepare (the merge loop: destination entries against the snapshot's node stream)"],
+         rewrites=[
+             Rw("process_existing(&mut walker, destination)?", "vprocess_existing_m(walker, destination, node_streamer)?", count=None, why="closure process_existing -> effectful stub: PRECONDITION 'no snapshot path, or the current node's path with the wrong kind'"),
+             Rw("process_node(path, node, true)?", "vprocess_node_m(path, node, true, node_streamer, Ghost(dpath(destination.e) == dest_of(*path)))?", count=None, why="closure process_node -> effectful stub: the node fetched last, once; exists only for an entry at that path"),
+             Rw("process_node(path, node, false)?", "vprocess_node_m(path, node, false, node_streamer, Ghost(false))?", count=None, why="closure process_node -> effectful stub"),
+             Rw("next_entry(&mut walker)", "vnext_entry_m(walker)", count=None, why="closure next_entry -> walker stub"),
+             Rw("node_streamer.next().transpose()?", "node_streamer.vnext()?", count=None, why="Iterator::next + Option<Result>::transpose -> stream stub"),
+         ],
+         contract="""
+    requires
+        walker_sorted(old(walker).seq@), nodes_sorted(old(node_streamer).seq@),
+        dst_in_sync(next_dst, *old(walker)), node_in_sync(next_node, *old(node_streamer)),
+        processed_nodes_before_dst(next_dst, next_node, *old(node_streamer), *old(walker)),
+    ensures
+        // every node of the snapshot is handed to process_node (exactly once, in order: preconditions of the stubs) ...
+        /*@every_snapshot_node_is_processed*/ r is Ok ==> final(node_streamer).pos@ == final(node_streamer).seq@.len() && !final(node_streamer).pending@,
+        // ... and every destination entry was looked at
+        /*@every_destination_entry_is_visited*/ r is Ok ==> final(walker).pos@ == final(walker).seq@.len(),
+        // (implicit obligation, precondition of process_existing: only entries that are no snapshot path -- or sit at the
+        //  current node's path with the wrong kind -- are treated as additional, i.e. reported or removed)
+""",
+         loops={1: """
+        invariant
+            walker.seq@ == old(walker).seq@, node_streamer.seq@ == old(node_streamer).seq@,
+            walker_sorted(walker.seq@), nodes_sorted(node_streamer.seq@),
+            dst_in_sync(next_dst, *walker), node_in_sync(next_node, *node_streamer),
+            processed_nodes_before_dst(next_dst, next_node, *node_streamer, *walker),
+        ensures
+            next_dst is None && next_node is None, dst_in_sync(next_dst, *walker), node_in_sync(next_node, *node_streamer),
+        decreases (walker.seq@.len() - walker.pos@) + (node_streamer.seq@.len() - node_streamer.pos@) + (if next_dst is Some { 1int } else { 0int }) + (if next_node is Some { 1int } else { 0int }),
+"""},
+         hints=[("loop_start", "1", "        proof { axiom_plt_total_order(); }")],
+         ),
+]
+
+KANI = []
+META = {"not_covered": [
+    "restore_contents (threads), set_metadata, the closure process_node of collect_and_prepare, sparse files, LocalDestination (syscalls): file-system state",
+    "walkdir order (ascending by path, component-wise) and NodeStreamer order are ASSUMED sorted in the merge unit",
     "LocalDestination::path joining the streamed relative path onto the destination (std Path::join of a confined relative path)",
     "is_plain_name itself (assumed to decide 'one normal component' per std::path::Path::components)",
 ]}
